@@ -272,11 +272,11 @@ PROPS.update({
         extra_modules=['GraphrsModel.Props.C17Model', 'GraphrsModel.Props.FormulasC13'],
         translators=['formulas'],
         thorough_scale=2,
-        gens=[('louv', 'ties', 1200, 20000, 12), ('louv', 'random', 600, 10000, 9), ('louv', 'nearties', 300, 5000, 0), ('louv', 'inexact', 600, 10000, 10)],
-        spec_fields=[], model_fields=[r'build'], impl_checks=[('same', '1')],
+        gens=[('louv', 'ties', 1200, 20000, 12), ('louv', 'random', 600, 10000, 9), ('louv', 'nearties', 300, 5000, 0), ('louv', 'inexact', 600, 10000, 10), ('par', 'some', 12, 60, 0)],
+        spec_fields=[], model_fields=[r'build'], impl_checks=[('same', '1'), ('par', '1')],
         extra_checks=['fresh_process_identical'],
-        nontrivial=lambda req, I: ',' in I.get('parts', ''),
-        hist=lambda req, I: graph_hist(req, I) + ['levels.%d' % len(I.get('parts', '').split())],
+        nontrivial=lambda req, I: True if req.startswith('par') else ',' in I.get('parts', ''),
+        hist=lambda req, I: ['family.par'] if req.startswith('par') else graph_hist(req, I) + ['levels.%d' % len(I.get('parts', '').split())],
         rule=LOUV_RULE + '; profile "nearties": a hub joined to 3-5 identical cliques by edges whose weights differ in the tenth significant digit, or are all of the order 1e-9 (gains neither equal nor clearly apart); profile "inexact": random and tie-rich graphs with decimal weights k/3, k/7, k/10, k/100, k·1e-10 (sums not exact in f64); each case is run twice in one process, in rayon pools of 1 and 4 threads, and again in a second process',
         assumptions=COMMON_ASSUME[:2] + ['the std hasher (RandomState) is library code: its per-instance keying is exercised by repeated calls '
                                          'and fresh processes, not modelled'],
